@@ -1076,8 +1076,12 @@ void QXmppTransferManager::ibbOpenIqReceived(const QXmppIbbOpenIq &iq)
     response.setId(iq.id());
 
     auto *job = d->getIncomingJobBySid(iq.from(), iq.sid());
+    // Only a job that was accepted and is waiting for the bytestream may be opened. A job that was declined, has
+    // failed or is finished still sits in the list until the application deletes it: opening it again would put it back
+    // into TransferState (a declined job has no device, the next <data/> would dereference a null pointer).
     if (!job ||
-        job->method() != QXmppTransferJob::InBandMethod) {
+        job->method() != QXmppTransferJob::InBandMethod ||
+        job->state() != QXmppTransferJob::StartState) {
         // the job is unknown, cancel it
         QXmppStanza::Error error(QXmppStanza::Error::Cancel, QXmppStanza::Error::ItemNotFound);
         response.setType(QXmppIq::Error);
